@@ -32,12 +32,20 @@ refsem.LEAVES.setdefault("M5", {"kind": "ext", "ports": [("g", 1), ("d", 1), ("s
 refsem.LEAVES.setdefault("BI", {"kind": "ext", "ports": [("a", 2), ("b", 2), ("i", 1), ("en", 3)]})  # has a port named `i`
 # ports named like the attributes the generators create themselves
 refsem.LEAVES.setdefault("NM", {"kind": "ext", "ports": [("i", 1), ("i_", 1), ("units", 1), ("inner", 1), ("o", 1)]})
+# ... and like the names the elaborator gives the flattened array elements
+refsem.LEAVES.setdefault("NM2", {"kind": "ext", "ports": [("a", 1), ("units_0", 1), ("units_1", 1), ("b", 1), ("units_2_", 1)]})
+
+
+# two DIFFERENT external modules that share a name (the same device from two PDK domains), with different ports
+refsem.LEAVES.setdefault("RHa", {"kind": "ext", "ports": [("p", 1), ("n", 1)], "extname": "res_hi", "domain": "pdk_a"})
+refsem.LEAVES.setdefault("RHb", {"kind": "ext", "ports": [("p", 1), ("n", 1), ("sub", 2)], "extname": "res_hi", "domain": "pdk_b"})
+refsem.LEAVES.setdefault("RHc", {"kind": "ext", "ports": [("n", 1), ("p", 1)], "extname": "res_hi", "domain": "pdk_c"})
 
 
 def unit_specs():
     """(label, unit target, list of modules the unit needs, scalar ports {name: width}, bundle ports {name: bundle})"""
     out = []
-    for leaf in ("R", "C", "VCVS", "MOS", "E1", "E3", "M4", "M5", "BI", "NM"):
+    for leaf in ("R", "C", "VCVS", "MOS", "E1", "E3", "M4", "M5", "BI", "NM", "NM2", "RHa", "RHb", "RHc"):
         out.append((leaf, ["leaf", leaf], [], dict(refsem.LEAVES[leaf]["ports"]), {}))
     # a module with bus ports
     um = {"name": "U", "style": "proc", "ports": [["x", 2, "in"], ["y", 2, "out"], ["k", 1, "inout"], ["v", 3, "none"]], "bports": [],
@@ -58,7 +66,7 @@ def unit_specs():
 BUNDLES = {"B1": {"sigs": [["x", 1, "sig"], ["y", 2, "sig"]], "subs": [], "roles": None}}
 
 
-def chain_spec(unit, mods, sp, bp, a, b, n):
+def chain_spec(unit, mods, sp, bp, a, b, n, iname="units_"):
     """The reference: n units in series from port a to port b."""
     w = sp[a]
     ports = [[p, pw, "none"] for p, pw in sp.items()]
@@ -75,7 +83,7 @@ def chain_spec(unit, mods, sp, bp, a, b, n):
                 conns[p] = ["sig", p]
         for p in bp:
             conns[p] = ["bun", p]
-        insts.append({"name": f"units_{k}", "kind": "single", "of": unit, "tag": 5, "conns": conns})
+        insts.append({"name": f"{iname}{k}", "kind": "single", "of": unit, "tag": 5, "conns": conns})
     S = {"name": "S", "style": "proc", "ports": ports, "bports": [[p, bn, False, None] for p, bn in bp.items()], "sigs": sigs, "buns": [], "insts": insts}
     return {"bundles": BUNDLES, "modules": list(mods) + [S], "top": "S"}
 
@@ -85,7 +93,7 @@ def wrapper_spec(unit, mods, sp, bp):
     conns = {p: ["sig", p] for p in sp}
     conns.update({p: ["bun", p] for p in bp})
     S = {"name": "S", "style": "proc", "ports": ports, "bports": [[p, bn, False, None] for p, bn in bp.items()], "sigs": [], "buns": [],
-         "insts": [{"name": "inner", "kind": "single", "of": unit, "tag": 5, "conns": conns}]}
+         "insts": [{"name": "inner" if "inner" not in sp and "inner" not in bp else "innerq", "kind": "single", "of": unit, "tag": 5, "conns": conns}]}
     return {"bundles": BUNDLES, "modules": list(mods) + [S], "top": "S"}
 
 
@@ -97,7 +105,7 @@ def real_unit(unit, mods):
     return build.build(d).top
 
 
-def judge(rec, label, case, make_real, refdesign, must_accept=True):
+def judge(rec, label, case, make_real, refdesign, must_accept=True, iname="units_"):
     import hdl21 as h
 
     rec.case(key=jhash(case), nontrivial=case.get("n", 2) >= 2 or case["gen"] == "Wrapper", sample=case if rec.evaluations % 150 == 3 else None)
@@ -105,6 +113,7 @@ def judge(rec, label, case, make_real, refdesign, must_accept=True):
         ref = refsem.flatten(refdesign)
     except refsem.Invalid as e:
         rec.count("generator.invalid-reference")
+        rec.hist("invalid_reference", f"{label}: {e}"[:120])
         return
     try:
         m = make_real()
@@ -132,7 +141,7 @@ def judge(rec, label, case, make_real, refdesign, must_accept=True):
         for p in obs.leaves:
             mt = re.match(r"^.*?(\d+)_*$", p[0])
             if mt:
-                ren[p[0]] = f"units_{int(mt.group(1))}"
+                ren[p[0]] = f"{iname}{int(mt.group(1))}"
         if ren and len(set(ren.values())) == len(ren) and case["gen"] != "Wrapper":
             o2 = refsem.Flat()
             o2.ports = obs.ports
@@ -161,14 +170,15 @@ def run(ctx, rec):
                     if form == "signal" and n not in (2, 3):
                         continue
                     case = {"gen": "Series", "unit": ulabel, "a": a, "b": b, "n": n, "form": form, "bus": sp[a] > 1, "bundle_port": bool(bp)}
-                    ref = chain_spec(unit, mods, sp, bp, a, b, n) if n > 1 else wrapper_spec(unit, mods, sp, bp)
+                    iname = "unitq_" if any(p.startswith("units_") for p in sp) else "units_"  # (reference instance names must be free)
+                    ref = chain_spec(unit, mods, sp, bp, a, b, n, iname) if n > 1 else wrapper_spec(unit, mods, sp, bp)
 
                     def make(unit=unit, mods=mods, a=a, b=b, n=n, form=form):
                         u = real_unit(unit, mods)
                         conns = (a, b) if form == "name" else (u.ports[a], u.ports[b])
                         return Series(unit=u, conns=conns, nser=n)
 
-                    judge(rec, f"Series({ulabel}, conns=({a},{b}) by {form}, nser={n})", case, make, ref)
+                    judge(rec, f"Series({ulabel}, conns=({a},{b}) by {form}, nser={n})", case, make, ref, iname=iname)
         # Wrapper
         case = {"gen": "Wrapper", "unit": ulabel, "bundle_port": bool(bp)}
 
